@@ -6,7 +6,10 @@ From Coq Require Import List Bool.
 Import ListNotations.
 
 Inductive src := SDataset | SSample | SSlow.
-Inductive tr := TNone | TJs | TJsPar.          (* TJsPar: parallelism 10 on pages of 15 (rounding of C10) *)
+Inductive tr := TNone | TJs | TPanic.
+(* TPanic: a transform stage that panics in the goroutine of the run (the driver injects the panic into the
+   pipeline.transform.batch timing call, which both pipelines make right after the transform of a page;
+   on the pinned tree the rounding defect of C10 is a real instance: makeslice: len out of range) *)
 Inductive snk := KDevNull | KDataset | KMissing. (* KMissing: DatasetSink on a dataset that does not exist *)
 Inductive trig := GCron | GOnChange.
 Inductive jt := JIncr | JFull.
@@ -52,10 +55,10 @@ Definition sync (v : jvariant) (c : cfg) : sres * bool (* wrappedSink.lastError 
     | JFull, KMissing => (SErr, false)                       (* sink.startFullSync fails, before the source is read *)
     | _, _ =>
       if c_kill c then (SInterrupt, false) else
-      (* transform stage of the incremental pipeline *)
-      match c_jt c, c_tr c with
-      | JIncr, TJsPar => (SPanic, false)                     (* makeslice: len out of range *)
-      | _, _ =>
+      (* transform stage of the first page *)
+      match c_tr c with
+      | TPanic => (SPanic, false)
+      | _ =>
         (* sink stage *)
         let '(stop, lasterr) :=
             match c_snk c with
@@ -112,7 +115,7 @@ Definition run_job (v : jvariant) (c : cfg) : out :=
 
 (** the lattice *)
 Definition all_src := [SDataset; SSample; SSlow].
-Definition all_tr := [TNone; TJs; TJsPar].
+Definition all_tr := [TNone; TJs; TPanic].
 Definition all_snk := [KDevNull; KDataset; KMissing].
 Definition all_trig := [GCron; GOnChange].
 Definition all_jt := [JIncr; JFull].
@@ -143,7 +146,7 @@ Definition dies_current (c : cfg) : bool :=
   && if (match c_jt c, c_snk c with JFull, KMissing => true | _, _ => false end)
      then (match c_trig c, c_h c with GOnChange, HLogRerun => true | _, _ => false end)
      else negb (c_kill c)
-          && ((match c_jt c, c_tr c with JIncr, TJsPar => true | _, _ => false end)
+          && ((match c_tr c with TPanic => true | _ => false end)
               || (has_log jcurrent c
                   && ((match c_snk c, c_trig c with KMissing, GOnChange => true | _, _ => false end)
                       || (match c_tr c with TNone => false | _ => true end)))).
